@@ -1723,8 +1723,21 @@ impl Server {
         
         let results = self.pubsub.unsubscribe(conn_id, channels)?;
         
+        // Nothing to unsubscribe from: a single confirmation with a nil channel
+        // and the number of subscriptions that remain
+        let remaining = self.pubsub.get_subscription_info(conn_id)
+            .map(|info| info.channels.len() + info.patterns.len())
+            .unwrap_or(0);
+        
         // Send each unsubscription confirmation atomically
         self.connections.with_connection(conn_id, |conn| -> Result<()> {
+            if results.is_empty() {
+                conn.send_frame(&RespFrame::Array(Some(vec![
+                    RespFrame::from_bytes(b"unsubscribe".to_vec()),
+                    RespFrame::null_bulk(),
+                    RespFrame::Integer(remaining as i64),
+                ])))?;
+            }
             for result in results {
                 match result.subscription {
                     crate::pubsub::Subscription::Channel(ch) => {
@@ -1793,8 +1806,21 @@ impl Server {
         
         let results = self.pubsub.punsubscribe(conn_id, patterns)?;
         
+        // Nothing to unsubscribe from: a single confirmation with a nil pattern
+        // and the number of subscriptions that remain
+        let remaining = self.pubsub.get_subscription_info(conn_id)
+            .map(|info| info.channels.len() + info.patterns.len())
+            .unwrap_or(0);
+        
         // Send each unsubscription confirmation atomically
         self.connections.with_connection(conn_id, |conn| -> Result<()> {
+            if results.is_empty() {
+                conn.send_frame(&RespFrame::Array(Some(vec![
+                    RespFrame::from_bytes(b"punsubscribe".to_vec()),
+                    RespFrame::null_bulk(),
+                    RespFrame::Integer(remaining as i64),
+                ])))?;
+            }
             for result in results {
                 match result.subscription {
                     crate::pubsub::Subscription::Pattern(pat) => {
